@@ -185,6 +185,8 @@ def summarize(fn, exceptional=False, extra_forward=None, roles=None, inline=None
 
     def step_path(f, p, idx, env, init_vals, depth, st, cont):
         conds, fwds, calls, fwd_ids, callvals, meta = st
+        if depth == 0 and 'path' not in meta:
+            meta['path'] = p
         if env is None:
             env = make_env(f, init_vals, st)
         ret_term = None
@@ -296,7 +298,7 @@ def summarize(fn, exceptional=False, extra_forward=None, roles=None, inline=None
         s.cond_terms = meta.get('cond_terms', [])
         s.fields = meta.get('fields', {})
         s.fwd_ids = fwd_ids
-        s.path = p
+        s.path = p if p is not None else meta.get('path')
         s.throws = throws
         s.throw_at_fwd = meta.get('throw_at_fwd')
         s.throw_at_call = meta.get('throw_at_call')
